@@ -10,6 +10,9 @@
 //! The commands of the generated documents have KNOWN output: `cat <abs>/pK.out; cat <abs>/pK.err >&2; (exit N)`.
 //! The model gets the bytes of the document and, per test, (payload stdout, payload stderr, N); the canonical line of
 //! the implementation is built from the JSON the binary prints and its exit status.
+//!
+//! The single-script path (Cram documents `doc.t`, Markdown documents under `--cram-compat`; ops `testcram` / `testdocc`)
+//! is in `testrun_script.rs`, which reuses the generators of this file.
 use crate::common::*;
 use crate::generate::{c10_generated_text, keep};
 use scrut::config::{OutputStreamControl, TestCaseConfig};
@@ -28,7 +31,7 @@ pub(crate) fn scrut_bin() -> String {
     std::env::var("SCRUT_BIN").unwrap_or("/verif/.build/repo-target/debug/scrut".into())
 }
 
-fn tmproot(what: &str) -> PathBuf {
+pub(crate) fn tmproot(what: &str) -> PathBuf {
     let base = std::env::temp_dir();
     let ok = base.to_str().map_or(false, |s| s.starts_with('/') && s.chars().all(|c| c.is_ascii_alphanumeric() || "/_-.".contains(c)));
     let base = if ok { base } else { PathBuf::from("/tmp") };
@@ -205,7 +208,7 @@ pub(crate) fn payload(rng: &mut Rng) -> Vec<u8> {
 }
 
 /// `replace_crlf`, re-stated: every CR that is directly followed by LF is dropped
-fn drop_crlf(bytes: &[u8]) -> Vec<u8> {
+pub(crate) fn drop_crlf(bytes: &[u8]) -> Vec<u8> {
     let mut v = Vec::with_capacity(bytes.len());
     for (i, b) in bytes.iter().enumerate() {
         if *b == b'\r' && bytes.get(i + 1) == Some(&b'\n') {
@@ -249,9 +252,19 @@ pub(crate) fn own_lines(esc: &Escaper, cfg: Cfg, out: &[u8], err: &[u8], other_s
     text.lines().skip(1).map(|l| l.to_string()).collect()
 }
 
+/// the expectation lines scrut itself writes for the bytes `sel` (library generator, see `own_lines`)
+pub(crate) fn own_lines_sel(esc: &Escaper, sel: Vec<u8>) -> Vec<String> {
+    let testcase = TestCase { title: "".into(), shell_expression: "cmd".into(), expectations: vec![], exit_code: None, line_number: 0, config: TestCaseConfig::default_markdown() };
+    let output = Output { stdout: sel.clone().into(), stderr: sel.into(), exit_code: ExitStatus::Code(0) };
+    let result = testcase.validate(&output);
+    let o = Outcome { location: None, output, testcase, escaping: esc.clone(), format: ParserType::Markdown, result };
+    let text = c10_generated_text(&o).unwrap_or_default();
+    text.lines().skip(1).map(|l| l.to_string()).collect()
+}
+
 const KIND_SUFFIXES: [&str; 4] = [" (escaped)", " (no-eol)", " (equal)", " (glob)"];
 
-fn add_quant(exp: &str, q: char) -> String {
+pub(crate) fn add_quant(exp: &str, q: char) -> String {
     for s in KIND_SUFFIXES {
         if exp.ends_with(s) {
             return format!("{}{q})", &exp[..exp.len() - 1]);
@@ -260,11 +273,11 @@ fn add_quant(exp: &str, q: char) -> String {
     format!("{exp} ({q})")
 }
 
-fn is_plain(exp: &str) -> bool {
+pub(crate) fn is_plain(exp: &str) -> bool {
     !exp.ends_with(')') && !exp.is_empty()
 }
 
-fn globbed(rng: &mut Rng, exp: &str) -> String {
+pub(crate) fn globbed(rng: &mut Rng, exp: &str) -> String {
     if exp.ends_with(" (escaped)") {
         // the escaped form of a glob expression: `GlobRule::make` resolves the escape sequences. A pattern has to be
         // UTF-8: the escaped form of a line that is not would make the document malformed (that case is generated on
@@ -311,10 +324,17 @@ fn globbed(rng: &mut Rng, exp: &str) -> String {
 
 pub(crate) fn build_body(rng: &mut Rng, esc: &Escaper, t: &TSpec) -> Vec<String> {
     let own = own_lines(esc, t.cfg, &t.out, &t.err, false);
-    let mut body: Vec<String> = match t.mode {
+    build_body_from(rng, own, &|| own_lines(esc, t.cfg, &t.out, &t.err, true), t.mode, t.expected, t.code, &globbed)
+}
+
+/// the body of a test from the expectation lines scrut itself writes for the compared bytes (`own`; `other` = for
+/// the bytes that are NOT compared), perturbed according to `mode`; then the exit code line. `glob_of` turns one
+/// line into a glob expectation.
+pub(crate) fn build_body_from(rng: &mut Rng, own: Vec<String>, other: &dyn Fn() -> Vec<String>, mode: Mode, expected: Expected, code: i32, glob_of: &dyn Fn(&mut Rng, &str) -> String) -> Vec<String> {
+    let mut body: Vec<String> = match mode {
         Mode::Exact => own,
         Mode::Quantified => own.iter().map(|e| if rng.chance(1, 2) { add_quant(e, *rng.pick(&['?', '*', '+'])) } else { e.clone() }).collect(),
-        Mode::Globbed => own.iter().map(|e| if rng.chance(2, 3) { globbed(rng, e) } else { e.clone() }).collect(),
+        Mode::Globbed => own.iter().map(|e| if rng.chance(2, 3) { glob_of(rng, e) } else { e.clone() }).collect(),
         Mode::OptionalNoise => {
             let mut b = own;
             for _ in 0..rng.range(1, 2) {
@@ -395,7 +415,7 @@ pub(crate) fn build_body(rng: &mut Rng, esc: &Escaper, t: &TSpec) -> Vec<String>
             b
         }
         Mode::Missing => vec![],
-        Mode::WrongStream => own_lines(esc, t.cfg, &t.out, &t.err, true),
+        Mode::WrongStream => other(),
         Mode::NearMiss => {
             let mut b = own;
             let cands: Vec<usize> = (0..b.len()).filter(|i| is_plain(&b[*i])).collect();
@@ -416,14 +436,14 @@ pub(crate) fn build_body(rng: &mut Rng, esc: &Escaper, t: &TSpec) -> Vec<String>
             b
         }
     };
-    match t.expected {
+    match expected {
         Expected::Right => {
-            if t.code != 0 {
-                body.push(format!("[{}]", t.code))
+            if code != 0 {
+                body.push(format!("[{}]", code))
             }
         }
-        Expected::RightExplicitZero => body.push(format!("[{}]", t.code)),
-        Expected::Wrong => body.push(format!("[{}]", t.code + 2)),
+        Expected::RightExplicitZero => body.push(format!("[{}]", code)),
+        Expected::Wrong => body.push(format!("[{}]", code + 2)),
         Expected::Absent => {}
     }
     body
@@ -510,7 +530,7 @@ fn gen_doc(seed: u64, idx: u64) -> Doc {
     Doc { tests, front_matter: rng.chance(1, 6), crlf_document: rng.chance(1, 10), broken, fillers, filler_table: &FILLERS, final_newline: true, escaper }
 }
 
-fn broken_block(b: Broken) -> &'static [u8] {
+pub(crate) fn broken_block(b: Broken) -> &'static [u8] {
     match b {
         Broken::ExpectationBeforeCommand => b"```scrut\nan expectation\n$ echo late\n```\n\n",
         Broken::ExitCodeTwice => b"```scrut\n$ echo twice\n[1]\n[2]\n```\n\n",
